@@ -43,7 +43,7 @@ def faultName : Fault → String
   | .errNameLen => "err:namelen" | .errQualLen => "err:quallen" | .errUnexpectedEOF => "err:unexpectedEOF"
   | .errBlockSize => "err:blocksize" | .errReadNameLen => "err:readnamelen" | .errSeqLen => "err:seqlen"
   | .errRefRange => "err:refrange" | .errMateRefRange => "err:materefrange" | .errAuxTruncated => "err:auxtruncated"
-  | .errAuxNoZero => "err:auxnozero" | .errAuxZeroInTag => "err:auxzerointag" | .errAuxArrayHdr => "err:auxarrayhdr"
+  | .errAuxNoZero => "err:auxnozero" | .errAuxZeroInTag => "err:auxzerointag" | .errAuxHexOdd => "err:auxhexodd" | .errAuxHexDigit => "err:auxhexdigit" | .errAuxArrayHdr => "err:auxarrayhdr"
   | .errAuxArrayElem => "err:auxarrayelem" | .errAuxArrayLen => "err:auxarraylen" | .errAuxType => "err:auxtype"
   | .panicAuxType => "panic:auxtype" | .fuel => "model:fuel"
 
